@@ -22,7 +22,9 @@ class CodeGen:
         return len(self._code)
 
     def clear(self) -> None:
-        self._code.clear()
+        # A new list: the previous program has been handed out by
+        # Parser.get_program() and may still be in use.
+        self._code = []
 
     def push(self, operand) -> None:
         self.add_instruction(self._push_op(operand), operand)
